@@ -85,8 +85,12 @@ def native(fn: Callable[..., Any], *args: Any) -> Any:
     from crosshair.tracers import NoTracing
 
     cargs = deep_realize(args)
+    _NATIVE_CALLS[0] += 1
     with NoTracing():
         return fn(*cargs)
+
+
+_NATIVE_CALLS = [0]
 
 
 @dataclass
@@ -109,6 +113,8 @@ class SliceResult:
     error: Optional[str] = None
     unknown_reasons: Dict[str, int] = field(default_factory=dict)
     nontrivial: int = 0  # distinct realised inputs on paths with >=1 solver decision
+    rechecked: int = 0  # passing paths whose representative input was re-run concretely (engine-model check)
+    recheck_disagreements: int = 0
 
     def to_json(self) -> Dict[str, Any]:
         return dict(self.__dict__)
@@ -216,6 +222,7 @@ def explore(
             search_root=root,
         )
         status: Optional[VerificationStatus]
+        native_before = _NATIVE_CALLS[0]
         record: Optional[Dict[str, Any]] = None
         kind = "ok"
         with condition_parser([AnalysisKind.PEP316]), Patched(), COMPOSITE_TRACER, NoTracing(), StateSpaceContext(space):
@@ -274,6 +281,20 @@ def explore(
                 res.nondeterministic += 1
                 exhausted = False
         res.paths += 1
+        if kind == "ok" and record is not None and _NATIVE_CALLS[0] == native_before:
+            # engine-model cross-check: the path passed symbolically and the code under test ran under
+            # the tracer (no native() section): re-run its representative input concretely.  A concrete
+            # failure means CrossHair's model of some library call is wrong on this path; it is treated
+            # as a failing path (and then goes through the ordinary replay).
+            res.rechecked += 1
+            try:
+                rr = run_concrete(fn, dict(concrete.arguments, **fixed))
+            except BaseException as e:  # noqa: BLE001
+                rr = {"holds": False, "exception": repr(e)[:300]}
+            if not rr.get("holds", True):
+                res.recheck_disagreements += 1
+                kind = "fail"
+                record["symbolic_exception"] = "passed symbolically, fails concretely: %s" % (rr.get("exception"),)
         if kind == "ok":
             res.ok += 1
             if record is not None and len(res.samples) < keep_samples:
